@@ -349,6 +349,10 @@ func raceSupplement(r *vlib.Run, dir string) {
 		if strings.Contains(o, "INFRA-ERROR") {
 			vlib.Infra("c14_race: %s", clip(o, 2000))
 		}
+		if i := strings.Index(o, "C14-RACE-HANG:"); i >= 0 {
+			r.Violate("hang/free-running", "the free-running run of the uninstrumented code hung (all its goroutines are in the dump):\n"+clip(o[i:], 6000), map[string]interface{}{"part": "race-supplement", "output": clip(o[i:], 12000)})
+			return
+		}
 		fp := "crash/" + crashFrame(o)
 		r.Violate(fp, "the free-running run of the uninstrumented code crashed ("+err.Error()+"):\n"+clip(o, 4000), map[string]interface{}{"part": "race-supplement", "output": clip(o, 8000)})
 	}
